@@ -132,6 +132,8 @@ def case_roundtrip(ctx, rng, idx):
     tag["n"] = n
     xb = x.copy()
     okc, y = ctx.call("round-trip", o.modulate, x, cls="modulate", detail=tag)
+    if okc:
+        ctx.hold("round-trip", "modulate", y, tag)
     if not okc:
         return
     ctx.ev("args-not-mutated", np.array_equal(x, xb), cls="modulate", detail=tag)
@@ -158,6 +160,8 @@ def case_roundtrip(ctx, rng, idx):
                    {**tag, "leak": leak, "unused": unused[:6]})
     yc = y.copy()
     okc, back = ctx.call("round-trip", o.demodulate, yc, cls="demodulate", detail=tag)
+    if okc:
+        ctx.hold("round-trip", "demodulate", back, tag)
     if not okc:
         return
     back = np.asarray(back)
